@@ -39,13 +39,13 @@ CLAIMS["C05"] = {
     "technique": T,
 }
 CLAIMS["C06"] = {
-    "text": "Stream.tla composes an io.Reader that cuts the input into arbitrary Read results (incl. data together with EOF), bufio.Reader's fill/ReadByte with its pending error, the byte machine of fasta.read() and the iterator layers; TLC explores every schedule of every input <= 5 (thorough 7) bytes and checks SchedFree (items = denotation, whatever the schedule). StreamLines.tla does the same for the buffer-level models of bufio.Scanner (composed with the FASTQ four-line machine) and bufio.ReadString (SAM, BED), inputs <= 5 (thorough 8 / 7) bytes. Sessions recorded from all six readers (FASTA, FASTQ, SAM Reader and ReaderHeader, BED, Newick) on well-formed inputs (incl. two larger than bufio's buffer), mutated and random inputs under 13 read schedules, CRLF conversion, File on a plain, a gzip and a zstd file and on an unopenable path are judged by Trace_Cross against the in-memory reference run; so is every text the exhaustive codec models emit (17 000 valid and corrupted FASTQ / SAM / BED texts in the quick tier, FASTA and Newick too in the thorough tier), decoded whole, byte by byte and in chunks of 2, 3 and 7.",
+    "text": "Stream.tla composes an io.Reader that cuts the input into arbitrary Read results (incl. data together with EOF), bufio.Reader's fill/ReadByte with its pending error, the byte machine of fasta.read() and the iterator layers; TLC explores every schedule of every input <= 5 (thorough 7) bytes and checks SchedFree (items = denotation, whatever the schedule). StreamLines.tla does the same for the buffer-level models of bufio.Scanner (composed with the FASTQ four-line machine) and bufio.ReadString (SAM, BED), inputs <= 5 (thorough 8 / 7) bytes. Sessions recorded from all six readers (FASTA, FASTQ, SAM Reader and ReaderHeader, BED, Newick) on well-formed inputs (incl. two larger than bufio's buffer), mutated and random inputs under 13 read schedules, CRLF conversion, File on a plain, a gzip and a zstd file and on an unopenable path are judged by Trace_Cross against the in-memory reference run; so is every text the exhaustive codec models emit (17 000 valid and corrupted FASTQ / SAM / BED texts in the quick tier, FASTA and Newick too in the thorough tier), decoded whole, byte by byte and in chunks of 2, 3 and 7. LineLoop.tla composes the same environment with bufio's ReadString at buffer level, the loops of sam.ReaderHeader / sam.Reader / bed's reader and the real line grammars (Sam!LineItem, Bed!ParseLine) over pools of real files (headers, comments, blank lines, CRLF, a malformed line, an unterminated last line): for every schedule, fault placement and stop position the delivered items are exactly Take(Full(data, fault), stop) (invariant Exact), Full obeys the fault law, TLC's deadlock check shows that an unfinished run can always step; every (input, fault, stop) -> items of the model is executed on the real readers under 4 read schedules (lineloop-replay).",
     "ref": "DESIGN.md section 6 C06",
     "note": "Trusted: TLC, gzip/aio (exercised), interning of items (injective projection). The clause 'well-formed input decodes to its denotation' is discharged per format in C01-C05.",
     "technique": T,
 }
 CLAIMS["C07"] = {
-    "text": "Stream.tla: TLC explores the byte-level FASTA reader over every read schedule x every fault offset x {once, forever} for all inputs <= 5 (7) bytes and checks FaultOK (only leading records of the fault-free decode, then exactly one error, last); a variant that hands out the partial record is refuted. StreamLines.tla: buffer-level models of bufio.Scanner and ReadString under every schedule and fault deliver exactly what MC_Fault assumes (LemmaScanner, LemmaReadString), and the FASTQ reader on top satisfies FaultOK (a reader without the length check is refuted: the partial last token becomes a record). MC_Fault: the error paths of the FASTQ (Scanner), SAM and BED (ReadString) and Newick (ReadByte) readers, as functions of the delivered prefix, satisfy FaultOK for every offset of every input of small well-formed corpora; the unrepaired SAM behaviour is refuted. Real runs: every reader x well-formed inputs (<= 400 bytes, thorough 5000) x every byte offset x {once, forever} x {1-byte, 4096-byte reads} with a consumer that never stops (unbounded iteration detected by a cap), and every format's Write x every offset at which the destination starts failing, judged by Trace_Cross.",
+    "text": "Stream.tla: TLC explores the byte-level FASTA reader over every read schedule x every fault offset x {once, forever} for all inputs <= 5 (7) bytes and checks FaultOK (only leading records of the fault-free decode, then exactly one error, last); a variant that hands out the partial record is refuted. StreamLines.tla: buffer-level models of bufio.Scanner and ReadString under every schedule and fault deliver exactly what MC_Fault assumes (LemmaScanner, LemmaReadString), and the FASTQ reader on top satisfies FaultOK (a reader without the length check is refuted: the partial last token becomes a record). MC_Fault: the error paths of the FASTQ (Scanner), SAM and BED (ReadString) and Newick (ReadByte) readers, as functions of the delivered prefix, satisfy FaultOK for every offset of every input of small well-formed corpora; the unrepaired SAM behaviour is refuted. Real runs: every reader x well-formed inputs (<= 400 bytes, thorough 5000) x every byte offset x {once, forever} x {1-byte, 4096-byte reads} with a consumer that never stops (unbounded iteration detected by a cap), and every format's Write x every offset at which the destination starts failing, judged by Trace_Cross. LineLoop.tla composes the same environment with bufio's ReadString at buffer level, the loops of sam.ReaderHeader / sam.Reader / bed's reader and the real line grammars (Sam!LineItem, Bed!ParseLine) over pools of real files (headers, comments, blank lines, CRLF, a malformed line, an unterminated last line): for every schedule, fault placement and stop position the delivered items are exactly Take(Full(data, fault), stop) (invariant Exact), Full obeys the fault law, TLC's deadlock check shows that an unfinished run can always step; every (input, fault, stop) -> items of the model is executed on the real readers under 4 read schedules (lineloop-replay).",
     "ref": "DESIGN.md section 6 C07",
     "note": "Trusted: TLC; the stdlib semantics written down in MC_Fault are assumptions exercised by every real run.",
     "technique": T,
@@ -63,9 +63,9 @@ CLAIMS["C16"] = {
     "technique": T,
 }
 CLAIMS["C18"] = {
-    "text": "MC_Iter: the push-iterator protocol (producer, three forwarding layers, consumer stopping anywhere) for all item sequences <= 4: NoCallbackAfterStop, PrefixOfFullRun; a layer that drops the consumer's false is refuted. Stream.tla StopOK: the FASTA reader stopped at every item under every schedule. Real runs: all six Readers and Files (plain, gzip, missing path) on valid and invalid inputs, PreOrder, PostOrder, trie.ForEach, CanonicalSubsequences, each stopped at every position 1..N+1 by calling the iterator function directly (callbacks after false are counted) and, for traversals and k-mers, through range+break; Trace_Cross checks prefix-of-full-run (distinct members for ForEach), no callback after stop, no panic, and error-item-last for FASTA/FASTQ/BED/Newick.",
+    "text": "MC_Iter: the push-iterator protocol (producer, three forwarding layers, consumer stopping anywhere) for all item sequences <= 4: NoCallbackAfterStop, PrefixOfFullRun; a layer that drops the consumer's false is refuted. Stream.tla StopOK: the FASTA reader stopped at every item under every schedule. Real runs: all six Readers and Files (plain, gzip, missing path) on valid and invalid inputs, PreOrder, PostOrder, trie.ForEach, CanonicalSubsequences, each stopped at every position 1..N+1 by calling the iterator function directly (callbacks after false are counted) and, for traversals and k-mers, through range+break; Trace_Cross checks prefix-of-full-run (distinct members for ForEach), no callback after stop, no panic, and error-item-last for FASTA/FASTQ/BED/Newick. LineLoop.tla composes the same environment with bufio's ReadString at buffer level, the loops of sam.ReaderHeader / sam.Reader / bed's reader and the real line grammars (Sam!LineItem, Bed!ParseLine) over pools of real files (headers, comments, blank lines, CRLF, a malformed line, an unterminated last line): for every schedule, fault placement and stop position the delivered items are exactly Take(Full(data, fault), stop) (invariant Exact), Full obeys the fault law, TLC's deadlock check shows that an unfinished run can always step; every (input, fault, stop) -> items of the model is executed on the real readers under 4 read schedules (lineloop-replay).",
     "ref": "DESIGN.md section 6 C18",
-    "note": "Trusted: TLC, interning of items. Inputs with more than 60 items are skipped in the stop sweep (quadratic).",
+    "note": "Trusted: TLC, interning of items. Iterations of more than 60 items are stopped at a sparse set of positions (first / last / around powers of two and multiples of 10000 / random) and observed through their length, their last 8 items and a harness-side comparison of the items before those.",
     "technique": T,
 }
 CLAIMS["C19"] = {
